@@ -1005,3 +1005,74 @@ Proof. vm_compute. reflexivity. Qed.
 Example ex_segment_datagram_hyps :
   0 < two64 /\ 10 < two64 /\ 6 < two64 /\ olen [16; 17; 18] < two64 /\ wf_bytes [16; 17; 18].
 Proof. repeat split; try (vm_compute; reflexivity). repeat constructor. Qed.
+
+(** * The pacing queue: nothing is dropped, duplicated or reordered within a lane *)
+
+Section PacingProofs.
+  Variable D : Type.
+
+  Lemma lane_of_app lane (a b : list (bool * D)) : lane_of D lane (a ++ b) = lane_of D lane a ++ lane_of D lane b.
+  Proof. unfold lane_of. rewrite filter_app, map_app. reflexivity. Qed.
+
+  Lemma lane_of_tagged lane tag (l : list D) :
+    lane_of D lane (map (pair tag) l) = if Bool.eqb tag lane then l else [].
+  Proof.
+    unfold lane_of. induction l as [|x l IH]; cbn [map filter fst].
+    - destruct (Bool.eqb tag lane); reflexivity.
+    - destruct (Bool.eqb tag lane) eqn:E; cbn [map snd]; rewrite IH; reflexivity.
+  Qed.
+
+  Definition lane_q (lane : bool) (st : pq D) : list D := if lane then q_pri D st else q_paced D st.
+
+  Lemma pq_step_conserves lane st e out st' :
+    pq_step D st e = (out, st') ->
+    lane_of D lane out ++ lane_q lane st' = lane_q lane st ++ enq_of D lane [e].
+  Proof.
+    destruct e as [ds|ds|n]; cbn [pq_step enq_of flat_map]; intros E; injection E as <- <-;
+      destruct lane; cbn [lane_q q_pri q_paced lane_of filter map app]; rewrite ?app_nil_r; try reflexivity.
+    - rewrite lane_of_app, !lane_of_tagged. cbn [Bool.eqb]. rewrite !app_nil_r. reflexivity.
+    - rewrite lane_of_app, !lane_of_tagged. cbn [Bool.eqb app]. apply firstn_skipn.
+  Qed.
+
+  Theorem pacing_conserves lane : forall evs st out st',
+    pq_run D st evs = (out, st') ->
+    lane_of D lane out ++ lane_q lane st' = lane_q lane st ++ enq_of D lane evs.
+  Proof.
+    induction evs as [|e r IH]; intros st out st' E.
+    - cbn in E. injection E as <- <-. cbn. rewrite app_nil_r. reflexivity.
+    - cbn [pq_run] in E. destruct (pq_step D st e) as [o1 st1] eqn:E1.
+      destruct (pq_run D st1 r) as [o2 st2] eqn:E2. injection E as <- <-.
+      rewrite lane_of_app, <- app_assoc, (IH _ _ _ E2), app_assoc, (pq_step_conserves lane _ _ _ _ E1).
+      rewrite <- app_assoc. f_equal. unfold enq_of. cbn [flat_map]. rewrite app_nil_r. reflexivity.
+  Qed.
+
+  (** a last tick with enough tokens empties both lanes: every datagram ever
+      enqueued has then been emitted exactly once, in its lane's order *)
+  Theorem pacing_drains lane evs n out st' :
+    pq_run D (mk_pq D [] []) (evs ++ [Tick D n]) = (out, st') ->
+    (length (enq_of D false evs) <= n)%nat ->
+    lane_of D lane out = enq_of D lane evs /\ q_pri D st' = [] /\ q_paced D st' = [].
+  Proof.
+    intros E Hn.
+    assert (Hrun : forall l1 l2 st, pq_run D st (l1 ++ l2)
+              = let '(o1, s1) := pq_run D st l1 in let '(o2, s2) := pq_run D s1 l2 in (o1 ++ o2, s2)).
+    { induction l1 as [|e r IH]; intros l2 st; cbn [app pq_run].
+      - destruct (pq_run D st l2); reflexivity.
+      - destruct (pq_step D st e) as [o1 s1]. rewrite IH. destruct (pq_run D s1 r) as [o2 s2].
+        destruct (pq_run D s2 l2) as [o3 s3]. rewrite app_assoc. reflexivity. }
+    rewrite Hrun in E. destruct (pq_run D (mk_pq D [] []) evs) as [o1 s1] eqn:E1.
+    cbn [pq_run pq_step] in E. rewrite app_nil_r in E. injection E as <- <-.
+    pose proof (pacing_conserves false _ _ _ _ E1) as Hp. cbn [lane_q q_paced app] in Hp.
+    assert (Hlen : (length (q_paced D s1) <= n)%nat).
+    { rewrite <- Hp in Hn. rewrite app_length in Hn. lia. }
+    cbn [q_pri q_paced]. split; [|split; [reflexivity | apply skipn_all2; exact Hlen]].
+    pose proof (pacing_conserves lane _ _ _ _ E1) as Hc.
+    rewrite lane_of_app, lane_of_app, !lane_of_tagged. rewrite firstn_all2 by exact Hlen.
+    destruct lane; cbn [Bool.eqb lane_q q_pri q_paced app] in *; rewrite ?app_nil_r; exact Hc.
+  Qed.
+End PacingProofs.
+
+Example ex_pacing :
+  run_pq [(1, [10; 11; 12]); (2, [1]); (0, [20]); (2, [0]); (0, [21; 22]); (2, [5])]
+  = ([10; 20; 21; 22; 11; 12], ([], [])).
+Proof. vm_compute. reflexivity. Qed.
